@@ -296,9 +296,11 @@ def _is_product(e, dim_args):
 
 
 def classify_ctor_panics(f, cb):
-    """panic conditions of an asserting constructor, from its own MIR"""
+    """panic conditions of an asserting constructor, from its own MIR: every diverging block is classified by the
+    condition of the nearest dominating branch that decides it (not by which panic function is called)"""
     kinds = set()
     d = Dfx(cb)
+    dom = cb.dominators()
     for bi, t, fn in cb.calls():
         if not fn:
             continue
@@ -309,17 +311,28 @@ def classify_ctor_panics(f, cb):
                 kinds.add("K_OVF")
             else:
                 kinds.add("K_UNKNOWN")
-        elif p.startswith("core::panicking::assert_failed"):
-            # which comparison failed: the dominating Eq switch
-            a1, a2 = strip(d.expr(t["args"][1])), strip(d.expr(t["args"][2]))
-            txt = show(a1) + " " + show(a2)
-            both_params = all(strip(x)[0] == "param" or (strip(x)[0] in ("ref",) and strip(x)[1][0] == "param") for x in (a1, a2))
-            if "len" in txt:
-                kinds.add("K_LEN")
-            elif both_params:
-                kinds.add("K_ZERO")
-            else:
-                kinds.add("K_UNKNOWN")
-        elif p.startswith("core::panicking::panic") and t["target"] is None:
-            kinds.add("K_UNKNOWN")
+            continue
+        diverges = t["target"] is None or p.startswith("core::panicking::")
+        if not diverges:
+            continue
+        # nearest dominating switch
+        cands = sorted((x for x in dom.get(bi, set()) if x != bi and cb.blocks[x]["term"] and cb.blocks[x]["term"]["k"] == "switch"), key=lambda x: len(dom.get(x, set())))
+        kind = "K_UNKNOWN"
+        # look at all dominating conditions from the nearest outwards until one classifies
+        for x in reversed(cands):
+            e = strip(d.expr(cb.blocks[x]["term"]["discr"]))
+            leaves = [y for y in walk(e) if y[0] in ("param", "call", "const", "var", "field")]
+            names = [y[2] for y in walk(e) if y[0] == "call"]
+            if "len" in names:
+                kind = "K_LEN"
+                break
+            if any(nm in ("checked_mul", "overflowing_mul", "checked_add") for nm in names):
+                kind = "K_OVF"
+                break
+            params = {y[1] for y in walk(e) if y[0] == "param"}
+            consts = [const_usize(y) for y in walk(e) if y[0] == "const"]
+            if params and not names and all(c in (0, None) for c in consts) and all(cb.locals[p_] == "usize" for p_ in params):
+                kind = "K_ZERO"
+                break
+        kinds.add(kind)
     return kinds
